@@ -124,6 +124,8 @@ def _through(entry, name, fields):
             base.merge_record_descriptors.cache_clear() if hasattr(base.merge_record_descriptors, "cache_clear") else None
             P = RecordDescriptor("c06/p", [tuple(x) for x in fields])
             d = merge_record_descriptors((P,), name=name) if entry == "merge_api" else extend_record(P(), [], name=name)._desc
+        elif entry == "descriptor_extend":
+            d = RecordDescriptor("c06/p", [("string", "kept")]).extend([tuple(x) for x in fields])
         elif entry == "api_clone":
             import warnings
 
@@ -182,16 +184,19 @@ def c06_definition(entry=None, name=None, fields=None):
     fields = [tuple(x) for x in fields]
     with Capture() as cap:
         accepted, res = _through(entry, name, fields)
+    if entry == "descriptor_extend":
+        name = "c06/p"
     expect = spec_accepts(name, fields if entry != "avro_schema" else [("string", f) for _, f in fields])
     out = {"entry": entry, "name": name, "fields": fields, "accepted": accepted, "reference_grammar_accepts": expect, "result": repr(res)[:200]}
     bad = []
     if accepted and not expect:
         bad.append("accepted a definition outside the grammar / whitelist")
-    for text in cap.texts:
+    texts = cap.texts[1:] if entry == "descriptor_extend" else cap.texts  # (the first text is the class of the valid descriptor that is being extended)
+    for text in texts:
         if not expect:
             bad.append("text of a definition outside the grammar reached exec")
     if accepted and expect and not entry.startswith("grouped"):
-        want = [f for _, f in fields] + RESERVED
+        want = (["kept"] if entry == "descriptor_extend" else []) + [f for _, f in fields] + RESERVED
         if list(res.recordType.__slots__) != list(dict.fromkeys(want)):
             bad.append(f"slots {res.recordType.__slots__} != declared + reserved")
         try:
